@@ -208,6 +208,31 @@ pub fn big_histories(tier: &str) -> Vec<Vec<Op>> {
     out
 }
 
+/// Range matrix: every (offset, count) shape of an appended batch and every (start, end) of a
+/// clear over the first bitfield words, each followed by a reopen; all indices observed.
+pub fn range_matrix(tier: &str) -> Vec<Vec<Op>> {
+    let quick = tier == "quick";
+    let mut out: Vec<Vec<Op>> = vec![];
+    let (amax, nmax, lclear) = if quick { (34u32, 66u32, 68u64) } else { (66, 100, 100) };
+    for a in 0..=amax {
+        for n in 1..=nmax {
+            let mut h = vec![];
+            if a > 0 {
+                h.push(Op::BatchN(a));
+            }
+            h.push(Op::BatchN(n));
+            h.push(Op::Reopen);
+            out.push(h);
+        }
+    }
+    for s in 0..lclear {
+        for e in s + 1..=lclear + 3 {
+            out.push(vec![Op::BatchN(lclear as u32), Op::Clear(s, e), Op::Reopen]);
+        }
+    }
+    out
+}
+
 pub fn run(tier: &str) -> i32 {
     let rep = Report::new("C01", tier, "model_checking");
     let stats = Stats::default();
@@ -258,6 +283,25 @@ pub fn run(tier: &str) -> i32 {
         }
     });
     leaves_total += nb as u64;
+    // range matrix
+    let mats = range_matrix(tier);
+    let nm = mats.len();
+    let next = std::sync::atomic::AtomicUsize::new(0);
+    std::thread::scope(|s| {
+        for _ in 0..nthreads().min(nm.max(1)) {
+            s.spawn(|| {
+                let mut v = ObsVisitor::new("C01", &rep, &stats, &states, &outcomes, false);
+                loop {
+                    let i = next.fetch_add(1, std::sync::atomic::Ordering::Relaxed);
+                    if i >= nm {
+                        break;
+                    }
+                    run_all_prefixes(&mats[i], &mut v);
+                }
+            });
+        }
+    });
+    leaves_total += nm as u64;
     let visited = stats.get("visited_prefixes");
     let coverage = json!({
         "states": states.len(),
@@ -269,9 +313,10 @@ pub fn run(tier: &str) -> i32 {
         "rule": "E1: every op sequence over the alphabet up to the depth, per family; each distinct prefix is observed once (info, has/get on 0..=len+1 and far indices) against the list model; states are exact fingerprints of (storage image, calls since last open); non-trivial = has an append and a clear/reopen",
         "families": fam_json,
         "page_scale_histories": nb,
+        "range_matrix_histories": nm,
         "samples": *stats.samples.lock().unwrap_or_else(|e| e.into_inner()),
         "exhaustive": true,
-        "bounds": "see families: alphabet x depth; page-scale and oversized-entry histories are fixed lists",
+        "bounds": "see families: alphabet x depth; page-scale and oversized-entry histories are fixed lists; range matrix = every (already present a, appended n) batch shape and every clear(s,e) over the first bitfield words, each followed by a reopen",
     });
     rep.finish(
         coverage,
